@@ -78,6 +78,10 @@ func (pass *FlattenDisjunctions) flattenDisjunction(_ *ast.Schema, disjunction a
 
 	for i, branch := range disjunction.Branches {
 		typeName := ast.TypeName(branch)
+		if branch.IsRef() {
+			// same-named objects of different packages are different branches
+			typeName = branch.AsRef().String()
+		}
 		if branch.IsStruct() {
 			typeName = fmt.Sprintf("branch_%d", i)
 		}
@@ -101,6 +105,9 @@ func (pass *FlattenDisjunctions) flattenDisjunction(_ *ast.Schema, disjunction a
 
 		for innerI, resolvedBranch := range resolved.AsDisjunction().Branches {
 			innerTypeName := ast.TypeName(resolvedBranch)
+			if resolvedBranch.IsRef() {
+				innerTypeName = resolvedBranch.AsRef().String()
+			}
 			if branch.IsStruct() {
 				innerTypeName = fmt.Sprintf("inner_branch_%d", innerI)
 			}
